@@ -86,10 +86,76 @@ impl Space for DrainLoops {
     }
 }
 
+/// Cycles among the sh_link fields of the table sections: whatever follows links must come to an end.
+struct LinkCycles;
+const LC_SECS: [usize; 10] = [2, 4, 5, 6, 7, 8, 9, 12, 13, 14]; // dynsym, versym, verneed, verdef, hash, gnu.hash, dynamic, rel, rela, symtab
+impl Space for LinkCycles {
+    fn name(&self) -> String {
+        "sh_link cycles among {.dynsym, .gnu.version, .gnu.version_r, .gnu.version_d, .hash, .gnu.hash, .dynamic, .rel, .rela, .symtab} of the tiny-full object: all 90 ordered 2-cycles and 720 ordered 3-cycles x 2 encodings; the whole slice API (bounded item counts) and every ElfStream accessor must return (watchdog)".into()
+    }
+    fn size(&self) -> u64 {
+        (90 + 720) * 2
+    }
+    fn describe(&self, idx: u64) -> serde_json::Value {
+        let (enc, cyc) = Self::decode(idx);
+        json!({"encoding": refmodel::layout::ENCS[enc].name(), "cycle_of_section_indexes": cyc})
+    }
+    fn run(&self, idx: u64, out: &mut Outcome) {
+        use crate::alloc::subject;
+        use refmodel::image::TableOrder;
+        let (enc_i, cyc) = Self::decode(idx);
+        let enc = refmodel::layout::ENCS[enc_i];
+        let (mut b, _) = crate::skeleton::tiny_full(enc, TableOrder::Linker);
+        for (k, s) in cyc.iter().enumerate() {
+            let next = cyc[(k + 1) % cyc.len()];
+            b.patch(&format!("shdr[{}].sh_link", s), next as u64);
+        }
+        super::slice_oracles::slice_check(Mode::Bounded, enc.order, &b.bytes, out);
+        // the stream parser's accessors on the same file
+        let r = subject(|| {
+            use elf::endian::AnyEndian;
+            let mut n = 0u64;
+            if let Ok(mut f) = elf::ElfStream::<AnyEndian, _>::open_stream(std::io::Cursor::new(b.bytes.clone())) {
+                n += f.symbol_version_table().map(|t| t.is_some() as u64).unwrap_or(2);
+                n += f.symbol_table().map(|t| t.is_some() as u64).unwrap_or(2);
+                n += f.dynamic_symbol_table().map(|t| t.is_some() as u64).unwrap_or(2);
+                n += f.dynamic().map(|t| t.is_some() as u64).unwrap_or(2);
+                n += f.section_headers_with_strtab().map(|t| t.1.is_some() as u64).unwrap_or(2);
+                n += f.section_header_by_name(".dynsym").map(|t| t.is_some() as u64).unwrap_or(2);
+            }
+            n
+        });
+        out.transitions += 6;
+        if let Err(m) = r {
+            out.violate(format!("panic:ElfStream accessors in {}", super::slice_oracles::panic_site(&m)), format!("link cycle {:?}: {m}", cyc));
+        }
+    }
+}
+impl LinkCycles {
+    fn decode(idx: u64) -> (usize, Vec<usize>) {
+        let enc = if idx % 2 == 0 { 2 } else { 1 };
+        let k = (idx / 2) as usize;
+        if k < 90 {
+            let (a, b) = (k / 9, k % 9);
+            let b = if b >= a { b + 1 } else { b };
+            (enc, vec![LC_SECS[a], LC_SECS[b]])
+        } else {
+            let k = k - 90;
+            let a = k / 72;
+            let r = k % 72;
+            let mut rest: Vec<usize> = (0..10).filter(|x| *x != a).collect();
+            let b = rest.remove(r / 8);
+            let c = rest[r % 8];
+            (enc, vec![LC_SECS[a], LC_SECS[b], LC_SECS[c]])
+        }
+    }
+}
+
 pub fn build(tier: Tier) -> CheckDef {
     let (mut spaces, bounds) = spaces_for(tier, Mode::Bounded, Also::Bounded, "C16 bounded work");
     spaces.extend(super::c16_graphs::spaces(tier));
     spaces.push(Box::new(DrainLoops));
+    spaces.push(Box::new(LinkCycles));
     // entry iterators handed out by both parsers end with their bytes whatever entry size the header declares
     spaces.push(Box::new(super::c09::FileTables));
     CheckDef {
